@@ -75,7 +75,9 @@ struct Run {
     db_blocks: HashMap<(usize, u64), u32>,
     db_mtime: u64,
     db_gets: u64,
-    db_paths: [u64; 6],
+    db_paths: [u64; 11],
+    /// Name -> instance the *global* database (`jiff::tz::db()`) caches.
+    gdb_cached: HashMap<u8, u32>,
 }
 
 // Every simulated thread is a real OS thread (so that thread-local state
@@ -516,7 +518,8 @@ impl Env for NativeEnv {
                 .map(|(i, c)| if i % 2 == 0 { c.to_ascii_uppercase() } else { c.to_ascii_lowercase() })
                 .collect(),
         };
-        let how = (case / 4) % 6;
+        let how = (case / 4) % 11;
+        let global = how >= 6;
         let tz = match db_lookup(&db, &q, how) {
             Ok(tz) => tz,
             Err(e) => {
@@ -569,7 +572,9 @@ impl Env for NativeEnv {
         };
         // If the cache now holds another instance for this name than before,
         // it dropped its handle of the old one.
-        let old = with_run(|r| r.db_cached.insert(name, zone));
+        let old = with_run(|r| {
+            if global { r.gdb_cached.insert(name, zone) } else { r.db_cached.insert(name, zone) }
+        });
         if let Some(old) = old {
             if old != zone {
                 self.handles(old, -1);
@@ -583,6 +588,12 @@ impl Env for NativeEnv {
         db.reset();
         drop(db);
         let cached = with_run(|r| std::mem::take(&mut r.db_cached));
+        for (_, z) in cached {
+            self.handles(z, -1);
+        }
+        // ... and the global one.
+        jiff::tz::db().reset();
+        let cached = with_run(|r| std::mem::take(&mut r.gdb_cached));
         for (_, z) in cached {
             self.handles(z, -1);
         }
@@ -609,6 +620,9 @@ impl Env for NativeEnv {
         });
         if with_run(|r| r.db.is_some()) {
             set_mtime(&dir.join(DB_NAMES[name]), n);
+            if let Some(g) = GLOBAL_DB_DIR.get() {
+                set_mtime(&g.join(DB_NAMES[name]), n);
+            }
         }
     }
 
@@ -650,14 +664,62 @@ fn db_lookup(db: &TimeZoneDatabase, q: &str, how: u8) -> Result<TimeZone, String
                 .map_err(e)?
                 .ok_or_else(|| "no time zone annotation".to_string())
         }
-        _ => {
+        5 => {
             let tm = strtime::parse("%Y-%m-%d %H:%M %Q", format!("2024-06-15 12:00 {q}")).map_err(e)?;
             let z = tm.to_zoned_with(db).map_err(e)?;
             let tz = z.time_zone().clone();
             drop(z);
             Ok(tz)
         }
+        // The APIs that go through the process-global database
+        // (`jiff::tz::db()`, here a zoneinfo database over a private copy of
+        // the same files, selected with `TZDIR`).
+        6 => TimeZone::get(q).map_err(e),
+        how => {
+            let ts = jiff::Timestamp::from_second(1_718_452_800).unwrap();
+            let z: jiff::Zoned = match how {
+                7 => ts.in_tz(q).map_err(e)?,
+                8 => format!("2024-06-15T12:00:00[{q}]").parse().map_err(e)?,
+                9 => jiff::civil::date(2024, 6, 15).at(12, 0, 0, 0).in_tz(q).map_err(e)?,
+                _ => jiff::Zoned::strptime("%Y-%m-%d %H:%M %Q", format!("2024-06-15 12:00 {q}"))
+                    .map_err(e)?,
+            };
+            let tz = z.time_zone().clone();
+            drop(z);
+            Ok(tz)
+        }
     }
+}
+
+/// The directory the process-global database reads (set up once per worker
+/// process, before jiff's global database is first touched).
+static GLOBAL_DB_DIR: std::sync::OnceLock<std::path::PathBuf> = std::sync::OnceLock::new();
+
+fn global_db_setup(per_run_dir: &std::path::Path) -> Result<(), String> {
+    if GLOBAL_DB_DIR.get().is_none() {
+        let dir = per_run_dir.with_file_name("c20gdb");
+        let _ = std::fs::remove_dir_all(&dir);
+        for (i, name) in DB_NAMES.iter().enumerate() {
+            let p = dir.join(name);
+            if let Some(parent) = p.parent() {
+                std::fs::create_dir_all(parent).map_err(|e| e.to_string())?;
+            }
+            std::fs::write(&p, interp::db_zone_bytes(i)).map_err(|e| e.to_string())?;
+        }
+        // Only this thread exists in the worker at this point.
+        std::env::set_var("TZDIR", &dir);
+        let _ = GLOBAL_DB_DIR.set(dir);
+        if jiff::tz::db().get(DB_NAMES[0]).is_err() {
+            return Err("the global database does not read the private TZDIR".into());
+        }
+    }
+    // Every run starts with the same files and an empty global cache.
+    let dir = GLOBAL_DB_DIR.get().unwrap();
+    for (i, name) in DB_NAMES.iter().enumerate() {
+        set_mtime(&dir.join(name), i as u64 + 1);
+    }
+    jiff::tz::db().reset();
+    Ok(())
 }
 
 /// The memory model, checked after every operation.
@@ -878,7 +940,8 @@ fn run_case(
             db_blocks: HashMap::new(),
             db_mtime: 0,
             db_gets: 0,
-            db_paths: [0; 6],
+            db_paths: [0; 11],
+            gdb_cached: HashMap::new(),
         });
     }
     if uses_db(&case) {
@@ -890,7 +953,7 @@ fn run_case(
             rt.reset(Policy::Random { stick: 0 }, 0, vec![]);
             rt.max_steps = u64::MAX;
         });
-        match db_setup(&db_dir) {
+        match db_setup(&db_dir).and_then(|db| global_db_setup(&db_dir).map(|_| db)) {
             Ok(db) => with_run(|r| {
                 r.db = Some(db);
                 r.db_mtime = 10;
@@ -966,6 +1029,10 @@ fn run_case(
     if let Some(db) = db {
         drop(db);
         for (_, z) in cached {
+            env.handles(z, -1);
+        }
+        jiff::tz::db().reset();
+        for (_, z) in with_run(|r| std::mem::take(&mut r.gdb_cached)) {
             env.handles(z, -1);
         }
         sim::with_rt(|rt| rt.active = false);
@@ -1176,6 +1243,11 @@ impl Prop for C20 {
             stats.add("database.lookups_via.parse_zoned_with", run.db_paths[3]);
             stats.add("database.lookups_via.pieces_to_time_zone_with", run.db_paths[4]);
             stats.add("database.lookups_via.strtime_to_zoned_with", run.db_paths[5]);
+            stats.add("database.global.lookups_via.TimeZone_get", run.db_paths[6]);
+            stats.add("database.global.lookups_via.Timestamp_in_tz", run.db_paths[7]);
+            stats.add("database.global.lookups_via.Zoned_from_str", run.db_paths[8]);
+            stats.add("database.global.lookups_via.DateTime_in_tz", run.db_paths[9]);
+            stats.add("database.global.lookups_via.Zoned_strptime", run.db_paths[10]);
             stats.add("ignored.zoned_arithmetic_api_panics", run.api_panics);
             stats.add("tolerated.interior_buffers_replaced_while_handles_live", run.interior_reallocs);
             stats.add("oracle.memory_model_checks", run.mem_checks);
